@@ -287,17 +287,19 @@ fn exec_read(
         n = short;
     }
 
-    // corruption_probability: silent bit-flip on a random byte.
-    //
-    // TODO: fire `turmoil_fs::fire_corruption(...)` here so tests
-    // observing FsCorruption events see ring-driven reads alongside
-    // shim reads — same as `turmoil_fs::shim::std::fs::File::read_at_internal`
-    // does.
+    // corruption_probability: silent bit-flip on a random byte, reported
+    // through the same hook `shim::std::fs::File::read_at_internal` uses
+    // so FsCorruption observers see ring-driven reads too.
     if n > 0 && sample_prob(rng, fs.corruption_probability) {
         let corrupt_offset = sample_range(rng, 0..n);
         let corrupt_byte = (rng.next_u32() & 0xff) as u8;
         // Ensure at least one bit flip.
         buf[corrupt_offset] ^= corrupt_byte.max(1);
+        turmoil_fs::fire_corruption(&turmoil_fs::FsCorruption {
+            path: path.clone(),
+            offset: offset + corrupt_offset as u64,
+            len: 1,
+        });
     }
 
     n as i32
